@@ -240,6 +240,8 @@ static const char *PROBE =
   "              (eq? (string->symbol \"fresh-sym\") 'fresh-sym)"
   "              (+ (expt 2 70) 1) (string-append \"a\" \"b\") (vector-length (make-vector 10 0))"
   "              (guard (e (#t 'no-feature)) (if (memq 'my-feature (features)) 'feature 'no-feature))"
+  "              (guard (e (#t 'no-rs)) (eval '(list (random-source? rs) (exact-integer? ((random-source-make-integers rs) 10)) (exact-integer? (random-integer 10))) (interaction-environment)))"
+  "              (guard (e (#t 'no-st)) (eval '(list (file-directory? st) (integer? (time-year tm))) (interaction-environment)))"
   "              (guard (e (#t 'no-port)) (eval '(let ((d (duplicate-file-descriptor kept-fd))) (if d (begin (close-file-descriptor d) 'descriptor-open) 'descriptor-closed)) (interaction-environment)))) p)"
   " (get-output-string p))";
 
@@ -253,6 +255,10 @@ static const char *iso_op(char c, int who) {
   case 'g': return "(let loop ((i 0) (a '())) (if (< i 30000) (loop (+ i 1) (cons (make-vector 20 i) (if (> i 29000) a '()))) (length a)))";
   case 's': return "(define fs (map (lambda (i) (string->symbol (string-append \"fresh-sym\" (number->string i)))) '(1 2 3 4 5 6 7 8)))";
   case 'm': return "(set! shared-name 'mutated)";
+  /* libraries whose shared objects register C types: the type ids a context hands out depend on what it loaded before, and the
+     loaded code is shared by every context of the process.  r: a random source (srfi 27); c: two other C-typed libraries */
+  case 'r': return "(import (srfi 27)) (define rs (make-random-source)) (random-source-pseudo-randomize! rs 1 2)";
+  case 'c': return "(import (chibi filesystem) (chibi time)) (define st (file-status \"/\")) (define tm (seconds->time 86400))";
   /* descriptors are process-wide: f opens a descriptor-backed port, reads and closes it explicitly (the descriptor object lives on
      until a collection); k opens a file and keeps it open - the probe reads from it */
   case 'f': return "(import (scheme base) (chibi filesystem) (chibi io)) (define tmp-port (open-input-file-descriptor (open \"/proc/self/status\" open/read))) (read-char tmp-port) (close-input-port tmp-port) (set! tmp-port #f)";
